@@ -309,6 +309,16 @@ func applyCall(f, col string, pts []point) (string, bool, int) {
 			best = p
 		}
 	}
+	if f == "first" && col == "fb" {
+		// the executor keeps false among the values of the first timestamp, the tag-set cursor
+		// and the statistics shortcut keep true (finding first-bool-ties): where both occur the
+		// answer depends on the path, the cell is printed as ~
+		for _, p := range pts {
+			if p.t == best.t && p.v != best.v {
+				return "~", false, best.t
+			}
+		}
+	}
 	return strconv.FormatInt(best.v, 10), false, best.t
 }
 
@@ -410,6 +420,33 @@ func oracle(q query, d *dataset) answer {
 func canonImpl(q query, d *dataset, a answer) (out answer, tiesMoved bool) {
 	if a.err != "" {
 		return a, false
+	}
+	if q.agg && q.hasBoolFirst() {
+		ref := map[string]map[string][]string{}
+		for _, g := range fullGroups(q, d) {
+			m := map[string][]string{}
+			for _, r := range g.rows {
+				m[r.t] = r.vals
+			}
+			ref[g.tag] = m
+		}
+		out = answer{flags: a.flags}
+		for _, g := range a.groups {
+			ng := ansGroup{tag: g.tag}
+			for _, r := range g.rows {
+				nr := ansRow{t: r.t, vals: append([]string(nil), r.vals...)}
+				if rv, ok := ref[g.tag][r.t]; ok && len(rv) == len(nr.vals) {
+					for j := range nr.vals {
+						if rv[j] == "~" {
+							nr.vals[j] = "~"
+						}
+					}
+				}
+				ng.rows = append(ng.rows, nr)
+			}
+			out.groups = append(out.groups, ng)
+		}
+		return out, false
 	}
 	if q.agg {
 		if q.interval != 0 || len(q.calls) != 1 || (q.calls[0].f != "min" && q.calls[0].f != "max") {
@@ -717,3 +754,15 @@ func (q query) loneExtremeTie(rows []*drow) bool {
 	return n > 1
 }
 
+
+func (q query) hasBoolFirst() bool {
+	if !q.agg {
+		return false
+	}
+	for _, c := range q.calls {
+		if c.f == "first" && c.col == "fb" {
+			return true
+		}
+	}
+	return false
+}
